@@ -147,3 +147,19 @@ func VerifTokenAwareReplicas(p HostSelectionPolicy, keyspace, tok string) ([]*Ho
 	}
 	return ht.hosts, nil
 }
+
+// VerifSetHostState changes the up/down state recorded in a HostInfo.
+func VerifSetHostState(h *HostInfo, up bool) {
+	if up {
+		h.setState(NodeUp)
+	} else {
+		h.setState(NodeDown)
+	}
+}
+
+// VerifCowList exposes the copy-on-write host list used by the selection policies.
+type VerifCowList struct{ l cowHostList }
+
+func (v *VerifCowList) Add(h *HostInfo) bool  { return v.l.add(h) }
+func (v *VerifCowList) Remove(ip net.IP) bool { return v.l.remove(ip) }
+func (v *VerifCowList) Get() []*HostInfo      { return v.l.get() }
